@@ -185,9 +185,35 @@ def run(ctx):
     ok = any(mentions_call(e.get('r'), 'RecomputeOutputsDirtyCache::all') for e in rod.events('asg'))
     ctx.check('C03.O1', ok, rod.name, 'RecomputeOutputsDirty:not-all', rod.loc,
               'the re-check is the full output check (RecomputeOutputsDirtyCache::all)')
+    # "prunes everything that depended only on it": a dependent edge of the cleaned node gets its re-check unless it is not
+    # wanted, its deps are missing, or one of its regular inputs is still dirty - no other way round the re-check
+    from rules import skip_conditions_exact
+    oloops = [l for l in loops_over(cn, 'Node::out_edges_')]
+    if not oloops:
+        # the loop may walk a local copy / the accessor: find the loop whose body holds the re-check
+        from rules import loop_blocks
+        for bid, b in cn.blocks.items():
+            t = b.get('term') or {}
+            if t.get('kind') in ('for', 'while', 'range') and len(b['succ']) == 2 and rc and b['succ'][0] is not None and \
+                    rc[0]['_b'] in cn.reachable_from(b['succ'][0]) | {b['succ'][0]} and bid in cn.reachable_from(rc[0]['_b']) and \
+                    ('out_edges' in (t.get('src') or '') or 'out_edges' in dstr(t.get('cond'))):
+                oloops.append({'header': bid, 'body': b['succ'][0], 'line': t.get('line')})
+    ctx.check('C03.O1', len(oloops) >= 1, cn.name, 'CleanNode:dependents-loop', cn.loc, 'CleanNode walks the dependents of the cleaned node')
+    allowed = [(lambda a: 'Plan::want_' in dstr(a) and 'end()' in dstr(a), True),
+               (lambda a: 'Plan::want_' in dstr(a) and 'count' in dstr(a), False),
+               (lambda a: mentions_enum(a, 'Plan::kWantNothing'), True),
+               (lambda a: mentions_field(a, 'Edge::deps_missing_'), True),
+               (lambda a: 'find_if' in dstr(a) and 'end' in dstr(a).split('find_if')[-1], False),
+               (lambda a: 'none_of' in dstr(a), False), (lambda a: 'any_of' in dstr(a), True),
+               (lambda a: 'all_of' in dstr(a), False),
+               (lambda a: mentions_call(a, 'Node::dirty') or mentions_field(a, 'Node::dirty_'), True)]
+    for l in oloops[:1]:
+        skip_conditions_exact(ctx, 'C03.O1', cn, l, lambda x: x in rc, allowed,
+                              'every wanted dependent whose deps are known and whose regular inputs are all clean is re-checked',
+                              'CleanNode:dependent-skipped')
     check_prune_recheck(ctx, 'C03.O1', prog)
     check_recheck_is_full(ctx, 'C03.O1', prog)
-    ctx.floor('C03.O1', 8)
+    ctx.floor('C03.O1', 10)
 
     # ---- G4: ready edges are not planned ------------------------------------------------------
     R('C03.G4', 'G', 'an edge whose outputs are ready is never inserted into the plan')
